@@ -218,6 +218,9 @@ type vWorldOpts struct {
 	PwRate               float64
 	ForeignPeerKey       bool // add an extra trusted keymaster public key (peer instance)
 	DenyFPs              []string
+	// PreloadOwnKeys: which of this instance's own CA public keys the operator's
+	// keymaster_public_keys file already lists: "", "main", "ed", "both"
+	PreloadOwnKeys string
 }
 
 type vWorld struct {
@@ -350,6 +353,12 @@ func vNewWorld(opts vWorldOpts) *vWorld {
 	}
 	if err := state.loadSignersFromPemData(signerPem, edPem); err != nil {
 		panic(fmt.Sprintf("verif: loadSignersFromPemData: %v", err))
+	}
+	if opts.PreloadOwnKeys == "main" || opts.PreloadOwnKeys == "both" {
+		state.KeymasterPublicKeys = append(state.KeymasterPublicKeys, vKey(opts.SignerKind, "signer").Public())
+	}
+	if opts.Ed25519CA && (opts.PreloadOwnKeys == "ed" || opts.PreloadOwnKeys == "both") {
+		state.KeymasterPublicKeys = append(state.KeymasterPublicKeys, vKey("ed25519", "signer").Public())
 	}
 	state.signerPublicKeyToKeymasterKeys()
 	state.SignerIsReady <- true
